@@ -153,6 +153,14 @@ def _store_backend_factory(backend, location, verbose=0, backend_options=None):
     return None
 
 
+def _safe_repr(value):
+    """repr(value), for the summary of a call: must not make the call fail."""
+    try:
+        return repr(value)
+    except Exception:
+        return object.__repr__(value)
+
+
 def _build_func_identifier(func):
     """Build a roughly unique identifier for the cached function."""
     modules, funcname = get_func_name(func)
@@ -907,7 +915,7 @@ class MemorizedFunc(Logger):
         start_time = time.time()
         argument_dict = filter_args(self.func, self.ignore, args, kwargs)
 
-        input_repr = dict((k, repr(v)) for k, v in argument_dict.items())
+        input_repr = dict((k, _safe_repr(v)) for k, v in argument_dict.items())
         # This can fail due to race-conditions with multiple
         # concurrent joblibs removing the file or the directory
         metadata = {
